@@ -756,7 +756,14 @@ pub fn sanitize_request<T>(
     request: &Request<T>,
 ) -> Result<CriticalRequestComponents, SanitizeError> {
     let uri_decoded_path = percent_decode(request.uri().path());
-    let path_ok = if uri_decoded_path.contains("./") || !uri_decoded_path.starts_with('/') {
+    // `percent_decode` gives the path back untouched when the decoded bytes aren't UTF-8.
+    // Look at the bytes too, so an escape like `%ff` can't hide the `%2e%2e%2f` next to it.
+    let decoded_bytes: Cow<'_, [u8]> =
+        percent_encoding::percent_decode_str(request.uri().path()).into();
+    let path_ok = if decoded_bytes.windows(2).any(|w| w == b"./")
+        || !decoded_bytes.starts_with(b"/")
+        || decoded_bytes.get(1) == Some(&b'/')
+    {
         false
     } else {
         parse::uri(&uri_decoded_path).map_or(false, |s| Path::new(s).is_relative())
